@@ -26,6 +26,7 @@ func propC02(r *Report, tier string) {
 	ruleHeapRestoredBeforePeek(r, "K5-heap-restored-before-peek")
 	ruleOptimisedDisjunctionKeepsMin(r, "K12-optimised-disjunction-keeps-min")
 	ruleSearcherCountIsAnEstimate(r, "K7-searcher-count-is-an-estimate")
+	ruleMustNotGetsMatchAllBase(r, "K5-must-not-gets-match-all-base")
 	ruleCarryLoopCoversIndexZero(r, "K8-carry-loop-covers-index-zero", func(rel string) bool { return rel == "index/scorch" || rel == "search/searcher" }, 2)
 	ruleFilteringWrappersFilterEveryResult(r, "K5-filter-wrapper-filters-every-result")
 	ruleFieldwiseEqualityComplete(r, "K9b-fieldwise-equality-complete", []string{"search", "search/searcher", "search/highlight", "search/collector", "index/scorch", "index/upsidedown", "document"}, map[string]string{})
